@@ -243,13 +243,16 @@ void h_id_start(void)
  *        incremented, and then it is either still open in the table (no close notification yet) or was closed through closeNow exactly once
  *        (gone from the table, tag erased, gauge back, exactly one close notification)
  *  DC-C  the connect callback fires at most once, for cr.sid, only on an established plain-TCP connection that stays open, never after a close
+ *  G1    the gauge never under-counts: when the session is announced (connect callback) and when closeNow is called for it, sessionsCurrent already
+ *        counts it (ghost G_w_counted: set by bumpSess once the session is in the table, asserted INSIDE the callback / closeNow stubs); a session left
+ *        open is counted. (C02: "the gauge of currently open sessions never under-counts and returns to zero once every session has closed")
  *  DC-S  TLS requested and available: tlsMode Client, tlsState Handshake, SSL object present, no connect callback yet */
 size_t G_dc_tags0;       /* number of fd tags before the block */
 static void dc_world(TcpEngine *self)
 {
   IORA_TRUE = 1;
   G_seq = 0; G_cb_calls = 0; G_cbw_calls = 0; G_wfd_close_calls = 0; G_wfd_del_calls = 0; G_err_calls = 0; G_conncb_calls = 0; G_conncbw_calls = 0; G_closeNow_calls = 0; G_freeaddr_calls = 0;
-  G_fdclose_calls = 0; G_ep_dels = 0; G_ep_mods = 0; G_errno = nondet_int(); G_conncb_seq = 0; G_closeNow_seq = 0;
+  G_fdclose_calls = 0; G_ep_dels = 0; G_ep_mods = 0; G_errno = nondet_int(); G_conncb_seq = 0; G_closeNow_seq = 0; G_w_counted = 0;
   self->_cbMutex.held = 0; self->_sessionRwMutex.held = 0; self->_cmdMutex.held = 0;
   self->_cbs.onClose = nondet_bool(); self->_cbs.onConnect = nondet_bool(); self->_cbs.onError = nondet_bool(); self->_cbs.onData = nondet_bool(); self->_cbs.onAccept = nondet_bool();
   self->_config.useEdgeTriggered = nondet_bool(); self->_config.clientTls.enabled = nondet_bool();
@@ -343,6 +346,7 @@ void h_doConnect_tail(void)
     __CPROVER_assert(tg.found && tgp->sess == s && !tgp->isListener, "DC-T its fd tag routes the descriptor to this session");
     __CPROVER_assert(self->_sessions.n == ns0 + 1 && self->_atomicStats.sessionsCurrent == cur0 + 1 && self->_atomicStats.closed == closed0, "DC-T gauge + 1, nothing else inserted or removed");
     __CPROVER_assert(G_cb_calls == 0 && G_fdclose_calls == 0, "DC-T no close notification, fd stays open");
+    __CPROVER_assert(G_w_counted, "G1 the gauge counts the session that doConnect leaves open in the table");
     __CPROVER_assert(G_ep_mods == 1 && G_ep_op == EPOLL_CTL_ADD && G_ep_fd == cfd && (G_ep_events & (EPOLLIN | EPOLLOUT)) == (EPOLLIN | EPOLLOUT), "DC-T the fd is registered with epoll for read and write readiness");
     __CPROVER_assert(G_conncb_calls <= 1 && G_conncbw_calls == G_conncb_calls && (G_conncb_calls == 0 || (ccb && R.tls == TlsMode_None && !in->connectPending)) && self->_atomicStats.connected == conn0 + G_conncb_calls,
                      "DC-C connect callback at most once, for cr.sid, only for an established plain-TCP connection");
@@ -401,6 +405,7 @@ void h_accept_tail(void)
     __CPROVER_assert(G_acccb_calls == (acb ? 1u : 0u) && G_acccbw_calls == G_acccb_calls && (!acb || G_acccb_in_table), "AC-1 accept callback exactly once (iff registered), with the id the session is stored under, after the insertion");
     __CPROVER_assert(tg.found && tgp->sess == s && !tgp->isListener, "AC-4 its fd tag routes the descriptor to this session");
     __CPROVER_assert(self->_sessions.n == ns0 + 1 && self->_atomicStats.sessionsCurrent == cur0 + 1 && self->_atomicStats.accepted == acc0 + 1 && G_fdclose_calls == 0, "AC-4 gauge + 1, accepted + 1, fd stays open");
+    __CPROVER_assert(G_w_counted, "G1 the gauge counts the accepted session");
     __CPROVER_assert(G_ep_mods == 1 && G_ep_op == EPOLL_CTL_ADD && G_ep_fd == cfd && (G_ep_events & EPOLLIN) != 0, "AC-4 the fd is registered with epoll for read readiness");
     __CPROVER_assert(tls_wanted ? (in->tlsMode == TlsMode_Server && in->tlsState == TlsState_Handshake && in->ssl != NULL) : (in->tlsMode == TlsMode_None && in->tlsState == TlsState_None && in->ssl == NULL), "AC-3 TLS listener: handshake state entered with an SSL object; plain listener: TLS fields untouched (TLS_INV)");
     IORA_CANARY("h_accept_tail: inserted");
